@@ -181,7 +181,7 @@ def rule_r3(rep, program: Program, tier: str):
                 if not dq.is_zero() or not dmu.is_zero():
                     r.violate(PROP, f"{f.name}:return-after-update", "position or multiplier is modified between the convergence test and the return", node=loop, file=f.file)
                 dp = env.env["state.mom"] - S("P0")
-                want = -(S("call[np.sign(time_step)]") * S(dmom) * S("MU0"))
+                want = -(S("sgn[time_step]") * S(dmom) * S("MU0"))
                 if not dp.equals(want):
                     r.violate(PROP, f"{f.name}:mom-correction:{dp!r}"[:170], f"on return the momentum changes by {dp!r}; the Lagrange-multiplier form requires -sign(time_step) * dh2_flow_mom_dmom @ mu", node=loop, file=f.file)
         r.inst({"solver": f.name, "iteration paths": n_end, "return paths": n_ret, "unroll bound": unroll})
